@@ -1118,8 +1118,12 @@ def run_infer_case(p):
     # the head mentions every variable of the rule (the property's precondition): a = x, b = y or an attribute of y, and a
     # constant in the third field.  Nested constructor arguments are not generated: whether a nested T2(...) in a head is
     # constructed or matched against existing instances is not settled by the property (see DESIGN.md, observations).
-    b_kind = rng.choice(['var', 'attr', 'attr', 'lookup'])
+    b_kind = rng.choice(['var', 'attr', 'attr', 'lookup', 'shared'])
     a_kind = 'var'
+    if b_kind == 'shared':
+        # a rule variable y that the body does not bind appears in TWO head arguments: both are evaluated under the same
+        # assignment of y (fields of different assignments are never mixed)
+        cond = O.gen_cond(rng, 1, p.get('depth', 2), vocab=('cmp', 'name'), neg=p.get('neg', True))
     if b_kind == 'lookup':
         # the second head argument is a nested quantified expression the body does not bind (it ranges over its own
         # domain d1): one instance per satisfying binding of x and per value of the nested expression
@@ -1133,10 +1137,14 @@ def run_infer_case(p):
             y = let(type_=O.Item, domain=d1)
             a_arg = x if a_kind == 'var' else O.BuiltC(a=x, tag='inner')
             b_arg = y if b_kind == 'var' else (y.name if b_kind == 'attr' else (an(entity(y)) if b_kind == 'lookup' else const))
-            head = T(a=a_arg, b=b_arg, tag=tag)
-            q = infer(entity(head, O.build(cond, [x, y] if b_kind != 'lookup' else [x])))
+            if b_kind == 'shared':
+                b_arg, tag_arg = y.name, y.size
+            else:
+                tag_arg = tag
+            head = T(a=a_arg, b=b_arg, tag=tag_arg)
+            q = infer(entity(head, O.build(cond, [x, y] if b_kind not in ('lookup', 'shared') else [x])))
         got = list(q.evaluate())
-        if b_kind == 'lookup':
+        if b_kind in ('lookup', 'shared'):
             sat = [(a, b) for a in d0 if O.holds(cond, {0: a}) for b in d1]
         else:
             sat = [(a, b) for a in d0 for b in d1 if O.holds(cond, {0: a, 1: b})]
@@ -1155,9 +1163,11 @@ def run_infer_case(p):
 
     def key_b(v):
         return ('id', id(v)) if b_kind in ('var', 'const', 'lookup') else ('val', v)
-    gk = sorted((key_a(g), key_b(g.b), id(g.tag)) for g in got)
+    tag_key = (lambda t: ('val', t)) if b_kind == 'shared' else (lambda t: id(t))
+    gk = sorted((key_a(g), key_b(g.b), tag_key(g.tag)) for g in got)
     wk = sorted(((('obj', id(a)) if a_kind == 'var' else ('nested', 'BuiltC', id(a), 'inner')),
-                 key_b(b if b_kind in ('var', 'lookup') else (b.name if b_kind == 'attr' else const)), id(tag)) for a, b in sat)
+                 key_b(b if b_kind in ('var', 'lookup') else (b.name if b_kind in ('attr', 'shared') else const)),
+                 tag_key(b.size if b_kind == 'shared' else tag)) for a, b in sat)
     if gk != wk:
         return dict(info, built=len(got), want=len(sat), signature_kind='instances',
                     sample=repr([(getattr(g.a, 'name', g.a), g.b, g.tag) for g in got[:3]]))
